@@ -62,3 +62,9 @@ TEXT["C13"] = {
     "design_ref": "DESIGN.md section 3, C13",
     "level_note": "Sampling. Backends are assumed to treat names as opaque strings (all in-tree ones do).",
 }
+TEXT["C14"] = {
+    "technique": "property-based testing (rapid): generated histories through ReadOnly / Immutable / ocimem immutable-tags with history invariants (full observable snapshot equality, tag ledger, monotone content, reference closure) checked after every step",
+    "level_text": "Generated histories (tagged and untagged pushes of equal/different content under few tags, image manifests and nested indexes, deletes aimed at tagged manifests and what they reference, mounts, uploads). ReadOnly: every mutating call fails with ErrUnsupported and a byte-level snapshot of everything observable in the underlying registry is identical after every call. Immutable / immutable-tags: a ledger of every (repository, tag) -> (digest, bytes) ever observed must keep holding after every step; through Immutable every delete fails and retrievable content only grows; in immutable-tags mode the closure of every tagged manifest over layers, config and nested index children stays retrievable.",
+    "design_ref": "DESIGN.md section 3, C14",
+    "level_note": "Sampling of sequential histories; concurrency for the immutable-tags mode is covered by C08's workloads. Media-type disagreement between a referring descriptor and the stored manifest is not generated.",
+}
